@@ -725,7 +725,7 @@ func c07PipeOne(env *fw.Env, i int64, active bool, k, cut, cut2 int, delays bool
 	}
 	if cut2 > 0 && cut2 != cut {
 		cuts = append(cuts, cut2)
-		if cuts[0] > cuts[1] {
+		if len(cuts) == 2 && cuts[0] > cuts[1] {
 			cuts[0], cuts[1] = cuts[1], cuts[0]
 		}
 	}
